@@ -337,6 +337,8 @@ def run(rep: vlib.Reporter, tier: str, seed: int) -> None:
         "Python issubclass / __mro__ for single-inheritance class forests = list of ancestors (generated universes only)",
         "class names are unique in generated universes (Link.__eq__ compares names)"]
     found = False
+    from harness import srctie      # source-text tie (Props/SrcTie.v): definitions regenerated from the source text = the models
+    found = (not srctie.check(rep)) or found
     big = tier == "thorough"
 
     ic = index_cases()
@@ -455,8 +457,6 @@ def run(rep: vlib.Reporter, tier: str, seed: int) -> None:
                     "non-empty tuples")
     for c in (ic[77], sel[0], vc[100], ec[0]):
         rep.sample(c)
-    from harness import srctie      # source-text tie (Props/SrcTie.v): definitions regenerated from the source text = the models
-    found = (not srctie.check(rep)) or found
     if not pr.ok and not found:
         rep.finding("proof-broken", "Props/C18.v no longer checks",
                     {"failed_files": pr.failed_files, "forbidden": pr.forbidden, "log_tail": pr.log[-3000:]}, found_input=False)
